@@ -1,5 +1,6 @@
 import WsModel.Endpoint
 import WsProofs.Lemmas.GlobalPanic
+import WsProofs.Lemmas.GlobalWork
 import WsProofs.Props.C18
 
 /-! C07 — no call panics: none of the `expect`/`unwrap`/`unreachable!`/`panic!`/`assert!` sites of
@@ -56,5 +57,85 @@ theorem C07_read_no_panic (w : World) (hr : w.Reachable) (hdef : ∀ bs, w.t.rdD
   | ok m => rfl
   | err e => rfl
   | panic s => exact absurd hres (read_np w (reachable_cinv w hr) hdef s)
+
+/-- every call makes boundedly many transport calls: at most one per scripted event it consumes, one
+per byte it has to write (what is waiting in the write buffer and the pending slot, plus the frame
+the call itself submits), plus a constant per `read` iteration (so no call spins).
+
+Changed from the given statement, which is false: the bytes of the frame submitted by the call
+(`opLen op`) and of the frame waiting in the pending slot (`slotLen w`) have to be counted — with a
+transport that accepts one byte per write, sending an n-byte message takes n+2 write calls (see the
+counterexample below). The hypothesis on `wrDef` turns out not to be needed: `write_out_buffer`
+stops with an error on `Ok(0)`. -/
+theorem C07_bounded_work (w : World) (op : Op) (hr : w.Reachable) (hop : op.noRaw)
+    (hdef : ∀ bs, w.t.rdDef ≠ .data bs) (hw : ∀ k, w.t.wrDef = .accept k → 1 ≤ k) :
+    (w.step op).1.t.log.length ≤ w.t.log.length + w.t.rd.length + w.t.wr.length + w.t.fl.length
+      + w.c.codec.outBuf.length + slotLen w + opLen op
+      + 16 * (w.c.codec.inBuf.length + rdBytes w.t.rd + 2) + 16 := by
+  have _ := hr
+  have _ := hop
+  have _ := hw
+  have h := step_cost w op hdef
+  have h1 : (w.step op).1.t.log.length ≤ psi0 (w.step op).1 := by
+    unfold psi0 tcost; omega
+  have h2 : psi w = w.t.log.length + w.t.rd.length + w.t.wr.length + w.t.fl.length
+      + w.c.codec.outBuf.length + slotLen w := by
+    unfold psi psi0 tcost; rfl
+  omega
+
+/-! ### the hypotheses are satisfiable; the counterexample to the given `C07_bounded_work` -/
+
+/-- a server whose peer sends "é" as a text message in two fragments that split the two-byte
+character (so the collector's `Incomplete` buffer is exercised), then a ping -/
+def exServer : World :=
+  { c := { role := .server, cfg := {},
+           codec := { inBuf := [], maxOut := ({} : Config).maxw, writeLen := ({} : Config).wbuf } }
+    t := { rd := [.data [0x01, 0x81, 0, 0, 0, 0, 0xC3], .data [0x80, 0x81, 0, 0, 0, 0, 0xA9],
+                  .data [0x89, 0x80, 0, 0, 0, 0]],
+           wr := [], fl := [] } }
+
+theorem exServer_init : exServer.Init :=
+  ⟨.server, {}, [], _, rfl, rfl, rfl, rfl, rfl, rfl⟩
+
+theorem ex_reachable : (exServer.run [.read]).1.Reachable :=
+  ⟨exServer, _, exServer_init, by simp [Op.noRaw], rfl⟩
+
+/-- the first read assembles the message across the split character (two loop iterations) -/
+example : (exServer.run [.read]).2 = [.msg (.ok (.text [0xC3, 0xA9]))] := rfl
+
+/-- the hypotheses of `C07_read_no_panic` / `C07_bounded_work` hold for the next read -/
+example : ∀ bs, (exServer.run [.read]).1.t.rdDef ≠ .data bs := by
+  intro bs h; cases h
+
+example : ((exServer.run [.read]).1.step .read).2.isPanic = false :=
+  C07_read_no_panic _ ex_reachable (by intro bs h; cases h)
+
+/-- … and mid-message (after the first fragment only) the collector holds an incomplete code point -/
+def exMid : World := { exServer with t := { exServer.t with rd := [.data [0x01, 0x81, 0, 0, 0, 0, 0xC3]] } }
+
+example : (exMid.run [.read]).1.c.incomplete =
+    some (.text { data := [], incomplete := some [0xC3] }) := by decide
+
+/-- `C07_new_panics_iff`: both sides occur -/
+example : Ctx.new .server { wbuf := 10, maxw := 10 } [] = none := rfl
+example : (Ctx.new .server { wbuf := 10, maxw := 11 } []).isSome = true := rfl
+
+/-- counterexample to the bound as given (without `opLen`): a transport that accepts one byte per
+write call needs 102 calls for a 100-byte binary message, the given bound is 48 -/
+def exSlow : World :=
+  { c := { role := .server, cfg := { wbuf := 0 },
+           codec := { inBuf := [], maxOut := ({} : Config).maxw, writeLen := 0 } }
+    t := { rd := [], wr := [], fl := [], wrDef := .accept 1 } }
+
+example : exSlow.Init := ⟨.server, { wbuf := 0 }, [], _, rfl, rfl, rfl, rfl, rfl, rfl⟩
+
+example :
+    (exSlow.step (.write (.binary (List.replicate 100 0)))).1.t.log.length = 102 ∧
+    exSlow.t.log.length + exSlow.t.rd.length + exSlow.t.wr.length + exSlow.t.fl.length
+      + exSlow.c.codec.outBuf.length + 16 * (exSlow.c.codec.inBuf.length + rdBytes exSlow.t.rd + 2) + 16 = 48 ∧
+    (∀ bs, exSlow.t.rdDef ≠ .data bs) ∧ (∀ k, exSlow.t.wrDef = .accept k → 1 ≤ k) := by
+  refine ⟨by decide, by decide, fun bs h => (by cases h), fun k h => ?_⟩
+  have : k = 1 := by injection h with h; exact h.symm
+  omega
 
 end WsProofs.C07
